@@ -282,5 +282,5 @@ func runC13(p *kit.Program, r *kit.Report) {
 		})
 	}
 	r.Count("origin_or_replay_route_literals", nOrig)
-	r.Require(nOrig >= 5, "floor: %d protocol.Route literals found in announce/replay code, expected at least 5", nOrig)
+	r.Require(nOrig >= 3, "floor: %d protocol.Route literals found in announce/replay code, expected at least 3", nOrig)
 }
